@@ -908,3 +908,33 @@ class VDistRecord(V):
 
 for _kind in VDistRecord.ARGS:
     T[f"torch.distributions.{_kind}"] = (lambda kind: (lambda it, ctx, a, k: VDistRecord(kind, a, k)))(_kind)
+
+
+
+# ============================================================================ triangular / Cholesky / sum operators (dense meaning)
+@op("linear_operator.operators.TriangularLinearOperator")
+def _TriLO(it, ctx, a, k):
+    """TriangularLinearOperator(T, upper=False): the dense matrix T itself (the caller guarantees triangularity)"""
+    r = as_tensor(a[0]).frozen().copy(is_linop=True, linop_class="TriangularLinearOperator")
+    r.meta["upper"] = bool(k.get("upper", a[1] if len(a) > 1 else FALSE).concrete()) if isinstance(k.get("upper", a[1] if len(a) > 1 else FALSE), VBool) else False
+    return r
+
+
+@op("linear_operator.operators.CholLinearOperator")
+def _CholLO(it, ctx, a, k):
+    """CholLinearOperator(L) = L L^T (L lower triangular)"""
+    L = a[0]
+    r = E.matmul(ctx, L, E.transpose(ctx, L, -2, -1))
+    r.is_linop = True
+    r.linop_class = "CholLinearOperator"
+    r.meta["chol_factor"] = L
+    return r
+
+
+@op("linear_operator.operators.SumLinearOperator")
+def _SumLO(it, ctx, a, k):
+    r = a[0]
+    for x in a[1:]:
+        r = it.binop(ctx, "+", r, x)
+    r = as_tensor(r).copy(is_linop=True, linop_class="SumLinearOperator")
+    return r
